@@ -245,8 +245,13 @@ fn id(
     node: dom::XmlNode,
     _: &mut model::Context,
 ) -> error::Result<model::Value> {
-    if node.owner_document().map(|v| v.doc_type()).is_some() {
-        unimplemented!()
+    let document = match &node {
+        dom::XmlNode::Document(v) => Some(v.clone()),
+        _ => node.owner_document(),
+    };
+    if document.and_then(|v| v.doc_type()).is_some() {
+        // ID attributes are declared in the DTD only; looking them up is not supported.
+        Err(error::Error::NotFoundFunction("id".to_string()))
     } else {
         Ok(model::Value::Node(vec![]))
     }
